@@ -1732,3 +1732,19 @@ func globalSliceInts(g *ssa.Global) ([]int64, bool) {
 	}
 	return nil, false
 }
+
+// eqEdges: for a branch on an equality test (in either polarity) returns the successor index taken when the two
+// sides are equal and the one taken when they differ; ok is false for other conditions.
+func eqEdges(iff *ssa.If) (bo *ssa.BinOp, eqIdx, neIdx int, ok bool) {
+	bo, isB := iff.Cond.(*ssa.BinOp)
+	if !isB {
+		return nil, 0, 0, false
+	}
+	switch bo.Op {
+	case token.EQL:
+		return bo, 0, 1, true
+	case token.NEQ:
+		return bo, 1, 0, true
+	}
+	return nil, 0, 0, false
+}
